@@ -13,7 +13,7 @@ use crate::walker::{self, Policy};
 use serde_json::json;
 
 fn viol(ctx: &mut Ctx, idx: u64, g: &GCase, v: &Vocab, hist: &[u32], ops: &[String], kind: &str, detail: serde_json::Value) {
-    let d = json!({"case": pool::describe(ctx, g, v), "rolled_back_over_eos_id": crate::mon_c11::rolled_back_over(ops, v.eos), "history_after_rollback": hist, "history_bytes": bytes_dbg(&v.trie().decode_raw(hist)), "ops": ops, "oracle": detail});
+    let d = json!({"case": pool::describe(ctx, g, v), "rolled_back_over_eos_id": v.eos_all.iter().any(|&e| crate::mon_c11::rolled_back_over(ops, e)), "history_after_rollback": hist, "history_bytes": bytes_dbg(&v.trie().decode_raw(hist)), "ops": ops, "oracle": detail});
     let rp = ctx.replay(idx);
     let tags = g.tags.clone();
     ctx.rep.violation(kind, &tags, d, rp);
@@ -24,7 +24,21 @@ fn run_case(ctx: &mut Ctx, idx: u64) {
     let twins = crate::mon_c11::twin_prefix_grammars();
     let g = crate::mon_c11::pick_grammar(&mut rng, idx, &twins);
     let vk = pool::pick_vkind(&mut rng, ctx.thorough);
-    let v = pool::make_vocab(&mut rng, &g, vk);
+    let mut v = pool::make_vocab(&mut rng, &g, vk);
+    // one case in five: several EOS ids (rollback over a secondary EOS drops zero bytes too)
+    if rng.chance(1, 5) {
+        let cand: Vec<u32> = v
+            .specials
+            .iter()
+            .copied()
+            .filter(|&t| t != v.eos && v.words[t as usize].len() > 1 && !g.text.contains(&String::from_utf8_lossy(&v.words[t as usize][1..]).to_string()))
+            .collect();
+        if !cand.is_empty() {
+            let extra = [*rng.pick(&cand)];
+            v = v.with_extra_eos(&extra);
+            ctx.rep.inc("multi_eos_cases");
+        }
+    }
     let Ok(f) = factory(&v, &FactoryOpts::default()) else { return };
     let Ok(mut m) = matcher(&f, &g) else {
         ctx.rep.inc("compile_errors");
@@ -87,7 +101,7 @@ fn run_case(ctx: &mut Ctx, idx: u64) {
             _ => 1 + rng.below(hist.len()),
         };
         let stopped_before = m.is_stopped();
-        let had_eos = hist[hist.len() - j..].contains(&v.eos);
+        let had_eos = hist[hist.len() - j..].iter().any(|&t| v.is_eos(t));
         let r = if j == hist.len() && rng.chance(1, 2) {
             ops.push("reset".into());
             m.reset()
